@@ -32,6 +32,14 @@ def parseSteps (s : String) : List RegStep :=
 def hx (b : Bytes) : String := toHex b
 def ids (l : List Bytes) : String := joinWith "," (l.map hx)
 
+/-- canonical text of a list of numbers: maximal runs of consecutive values as `first+length` -/
+def showRuns (l : List Nat) : String :=
+  let runs := l.foldl (fun (acc : List (Nat × Nat)) g =>
+    match acc with
+    | (a, n) :: rest => if g == a + n then (a, n + 1) :: rest else (g, 1) :: (a, n) :: rest
+    | [] => [(g, 1)]) []
+  joinWith "," (runs.reverse.map fun (a, n) => s!"{a}+{n}")
+
 open Assembly in
 /-- registry → `Deploy` → every receiver handles its request → route/own every key -/
 def deployOp (kgc tc : Nat) (steps : List RegStep) (keys : List Bytes) : String :=
@@ -46,7 +54,7 @@ def deployOp (kgc tc : Nat) (steps : List RegStep) (keys : List Bytes) : String 
       let showOp := fun (x : NodeId × OpReq × Option OpState) =>
         let (o, req, st) := x
         s!"{hx o}={req.kgc}:{ids req.operators}:{ids req.srIds}:" ++
-          (match st with | none => "panic" | some st => s!"{st.range.start}-{st.range.stop}/{st.n}")
+          (match st with | none => "panic" | some st => s!"{st.range.start}-{st.range.stop}/{st.n}/q{showRuns st.timerQueues}")
       let showSr := fun (x : NodeId × SrReq × Option SrState) =>
         let (s, req, _) := x
         s!"{hx s}={req.kgc}:{ids req.operators}"
@@ -57,7 +65,14 @@ def deployOp (kgc tc : Nat) (steps : List RegStep) (keys : List Bytes) : String 
           | some st => match srRoute st k with | none => "none" | some t => hx t
         let owners := fun (f : OpState → Bool) => ids (opStates.filterMap fun (o, _, st) =>
           match st with | some st => if f st then some o else none | none => none)
-        s!"{hx k}={joinWith "," tgts}/{owners fun st => st.owns (st.dbKey k [110, 115] [7])}/{owners fun st => st.owns (st.timerKey k 123456789)}"
+        -- for every operator owning the key's timer: the queue it is pushed to and the key group that queue serves
+        let queues := joinWith "," (opStates.filterMap fun (_, _, st) =>
+          match st with
+          | some st => if st.owns (st.timerKey k 123456789) then
+              let i := st.timerQueueIndex k 123456789
+              some s!"{i}:{(st.timerQueues[i]?.map toString).getD "none"}" else none
+          | none => none)
+        s!"{hx k}={joinWith "," tgts}/{owners fun st => st.owns (st.dbKey k [110, 115] [7])}/{owners fun st => st.owns (st.timerKey k 123456789)}/{queues}"
       s!"A{ids ops}/{ids srs}|O" ++ joinWith ";" (opStates.map showOp) ++ "|S" ++ joinWith ";" (srStates.map showSr) ++
         "|K" ++ joinWith ";" (keys.map showKey)
 
